@@ -17,42 +17,56 @@
 EXTENDS Integers, Sequences, FiniteSets, TLC, Json
 
 CONSTANTS Cross,       \* P and S subscribed to each other (cross-blocked pairs)
+          SelfSub,     \* P is subscribed to its own topic (its own outgoing ring fills when it stops reading)
           WithAttacker, MaxSteps
 
 Clients == {"P", "S"} \cup (IF WithAttacker THEN {"A"} ELSE {})
 VARIABLES st,          \* client -> "new" | "up" | "gone"
           reading,     \* client -> BOOLEAN
+          pending,     \* client -> "none" | "bad" | "disconnect": an ending packet pipelined while the client does not read
           closedSrv, steps, hist
-vars == <<st, reading, closedSrv, steps, hist>>
+vars == <<st, reading, pending, closedSrv, steps, hist>>
 
 Init == /\ st = [c \in Clients |-> IF c = "A" THEN "new" ELSE "up"]
-        /\ reading = [c \in Clients |-> TRUE]
+        /\ reading = [c \in Clients |-> TRUE] /\ pending = [c \in Clients |-> "none"]
         /\ closedSrv = FALSE /\ steps = 0 /\ hist = <<>>
 
 Free(s) == \A c \in Clients : s[c] = "up" => reading[c]
 \* gone is only predicted when the proviso holds before the step: a packet of a connection whose
 \* processor is parked on somebody's full ring is not even looked at
 Log(a, c, gone) == /\ steps' = steps + 1
-                   /\ hist' = Append(hist, [a |-> a, c |-> c, gone |-> (gone /\ Free(st)), free |-> (Free(st) /\ Free(st')), cross |-> Cross])
+                   /\ hist' = Append(hist, [a |-> a, c |-> c, gone |-> (gone /\ Free(st)), free |-> (Free(st) /\ Free(st')), cross |-> Cross, selfsub |-> SelfSub])
 
 \* a burst of big QoS 0 publishes (more than the subscriber's ring holds)
 Burst(c) == /\ c \in {"P", "S"} /\ st[c] = "up" /\ (c = "S" => Cross) /\ ~closedSrv
-            /\ UNCHANGED <<st, reading, closedSrv>> /\ Log("burst", c, FALSE)
+            /\ UNCHANGED <<st, reading, pending, closedSrv>> /\ Log("burst", c, FALSE)
 StopReading(c) == /\ c \in {"P", "S"} /\ st[c] = "up" /\ reading[c] /\ ~closedSrv
                   /\ reading' = [reading EXCEPT ![c] = FALSE]
-                  /\ UNCHANGED <<st, closedSrv>> /\ Log("stopreading", c, FALSE)
+                  /\ UNCHANGED <<st, pending, closedSrv>> /\ Log("stopreading", c, FALSE)
 \* ways a connection ends; the broker closes it itself after malformed or oversized input
 End(c, how) == /\ c \in {"P", "S"} /\ st[c] = "up" /\ ~closedSrv
                /\ (how \in {"disconnect", "bad", "over"} => reading[c])
                /\ st' = [st EXCEPT ![c] = "gone"]
-               /\ UNCHANGED <<reading, closedSrv>> /\ Log(how, c, how \in {"bad", "over", "disconnect"})
+               /\ UNCHANGED <<reading, pending, closedSrv>> /\ Log(how, c, how \in {"bad", "over", "disconnect"})
 \* the attacker: garbage before CONNECT, or a valid CONNECT followed by garbage, each optionally cut short
 Attack(kind) == /\ WithAttacker /\ st["A"] = "new" /\ ~closedSrv
                 /\ st' = [st EXCEPT !["A"] = "gone"]
-                /\ UNCHANGED <<reading, closedSrv>> /\ Log(kind, "A", TRUE)
+                /\ UNCHANGED <<reading, pending, closedSrv>> /\ Log(kind, "A", TRUE)
 ServerClose == /\ ~closedSrv /\ closedSrv' = TRUE
                /\ st' = [c \in Clients |-> "gone"]
-               /\ UNCHANGED reading /\ Log("serverclose", "-", FALSE)
+               /\ UNCHANGED <<reading, pending>> /\ Log("serverclose", "-", FALSE)
+
+\* a client that does not read pipelines an ending packet with more data behind it; when it reads again the
+\* processor reaches that packet and ends the connection on its own, whatever state the rings are in
+Pipeline(c, how) == /\ c = "P" /\ SelfSub /\ st[c] = "up" /\ ~reading[c] /\ pending[c] = "none" /\ ~closedSrv
+                    /\ pending' = [pending EXCEPT ![c] = how]
+                    /\ UNCHANGED <<st, reading, closedSrv>> /\ Log("pipeline-" \o how, c, FALSE)
+Resume(c) == /\ c \in {"P", "S"} /\ st[c] = "up" /\ ~reading[c] /\ ~closedSrv
+             /\ reading' = [reading EXCEPT ![c] = TRUE]
+             /\ st' = IF pending[c] # "none" THEN [st EXCEPT ![c] = "gone"] ELSE st
+             /\ UNCHANGED <<pending, closedSrv>>
+             /\ steps' = steps + 1
+             /\ hist' = Append(hist, [a |-> "resume", c |-> c, gone |-> pending[c] # "none", free |-> Free(st'), cross |-> Cross, selfsub |-> SelfSub])
 
 AttackKinds == {"pre-garbage", "pre-truncated-connect", "pre-cut-in-header", "pre-cut-in-body", "pre-huge-remlen",
                 "post-truncated-publish", "post-garbage", "post-huge-remlen", "post-cut-mid-packet", "post-bad-flags",
@@ -60,6 +74,8 @@ AttackKinds == {"pre-garbage", "pre-truncated-connect", "pre-cut-in-header", "pr
 Next == steps < MaxSteps /\
         \/ \E c \in {"P", "S"} : Burst(c) \/ StopReading(c)
         \/ \E c \in {"P", "S"}, how \in {"cut", "disconnect", "bad", "over"} : End(c, how)
+        \/ \E how \in {"bad", "disconnect"} : Pipeline("P", how)
+        \/ \E c \in {"P", "S"} : Resume(c)
         \/ \E k \in AttackKinds : Attack(k)
         \/ ServerClose
 Spec == Init /\ [][Next]_vars
